@@ -180,7 +180,25 @@ fn main() {
     }
 
     // --- search -----------------------------------------------------------
-    let mut report = (prop.run)(&ctx);
+    // a library call made outside any generated case (while a check prepares
+    // its inputs) may panic too: that is a violation of the same kind as a
+    // panic inside a case, not a reason to die with exit 101
+    let mut report = match engine::catch(|| (prop.run)(&ctx)) {
+        Ok(r) => r,
+        Err((loc, msg)) => {
+            if engine::is_harness_panic(&loc) {
+                eprintln!("HARNESS BUG: panic at {loc} while running {id}: {msg}");
+                std::process::exit(2);
+            }
+            let mut r = engine::Report::new("exploration", "the search did not complete: a library call made while the check prepared its cases panicked");
+            r.violations.push(engine::Violation {
+                sig: format!("{id} panic at={loc}"),
+                detail: format!("a library call outside any generated case panicked: {msg} ({loc})"),
+                case: json!({"kind": "setup", "case": J::Null}),
+            });
+            r
+        }
+    };
     report.extra.insert("regress_cases_replayed".into(), json!(regress_run));
     let _ = std::fs::create_dir_all(format!("{}/replays", verif_dir));
     for (n, v) in report.violations.iter().enumerate() {
